@@ -40,13 +40,39 @@ class AnchorMissing(Exception):
     pass
 
 
+# kind of the private fields the rules are anchored on (used only when a field of that name no longer exists)
+FIELD_KIND = {
+    "raw_msg_len": ("int", 64), "zero_cache": ("int", 8), "state": ("enum",), "padding": ("struct",),
+    "pending_list_entries": ("int",), "buffer": ("array",), "num_elements": ("int",), "idx": ("int",),
+}
+
+
 def field_index(facts, adt_def, name, variant=0):
     adt = facts.adts.get(adt_def)
     if adt is None:
         raise AnchorMissing("type %s not found" % adt_def)
-    for i, fl in enumerate(adt["variants"][variant]["fields"]):
+    fields = adt["variants"][variant]["fields"]
+    for i, fl in enumerate(fields):
         if fl["name"] == name:
             return i
+    # the field was renamed: fall back to the only field of the kind this anchor is known to have
+    hint = FIELD_KIND.get(name)
+    if hint is not None:
+        def is_kind(t):
+            k = t.get("k")
+            if hint[0] == "int":
+                return k == "int" and (len(hint) == 1 or t.get("w") == hint[1])
+            if hint[0] == "array":
+                return k == "array"
+            if hint[0] in ("enum", "struct") and k == "adt":
+                a2 = facts.adts.get(t["def"])
+                if a2 is None:
+                    return False
+                return (len(a2["variants"]) > 1) == (hint[0] == "enum")
+            return False
+        cands = [i for i, fl in enumerate(fields) if is_kind(fl["ty"])]
+        if len(cands) == 1:
+            return cands[0]
     raise AnchorMissing("field %s.%s not found" % (adt_def, name))
 
 
